@@ -354,7 +354,12 @@ struct Layer {
 fn scaled_tolerance(x: f32, trans: &Transform) -> f32 {
     // The absolute value of the determinant is the area parallelogram
     // Take the sqrt of the area to losily convert to one dimension
-    x / trans.determinant().abs().sqrt()
+    // (in f64: the determinant of a large transform overflows f32)
+    let det = trans.m11 as f64 * trans.m22 as f64 - trans.m12 as f64 * trans.m21 as f64;
+    let tolerance = (x as f64 / det.abs().sqrt()) as f32;
+    // the flattener refuses tolerances below its EPSILON^2 (and NaN) with an assertion
+    let min = <f32 as lyon_geom::Scalar>::EPSILON * <f32 as lyon_geom::Scalar>::EPSILON;
+    if tolerance >= min { tolerance } else { min }
 }
 
 
